@@ -196,10 +196,12 @@ _LINES = {}
 def injector_at(root, p, msg):
     """the injector whose template contains the position a diagnostic starts with (file wire.go of package app)"""
     import re
-    f = "%s/%s/%s/wire.go" % (root, p.name, p.pkgmap["app"]["dir"])
-    m = re.match(r"^%s:(\d+):\d+: " % re.escape(f), msg)
+    d = "%s/%s/%s/" % (root, p.name, p.pkgmap["app"]["dir"])
+    m = re.match(r"^(%s[\w.]+\.go):(\d+):\d+: " % re.escape(d), msg)
     if not m:
         return None
+    f = m.group(1)
+    m = re.match(r"^%s:(\d+):\d+: " % re.escape(f), msg)
     if f not in _LINES:
         spans = []
         try:
@@ -253,6 +255,12 @@ def gen_batch(n, opts, tag=""):
         from . import e2e_names
         for p in progs:
             e2e_names.adversarial(rng, p, opts)
+    if opts.get("p_multi_file"):
+        # the injectors of the package spread over two or three files (own random stream)
+        r3 = random.Random(seed() * 130363 + len(tag))
+        for p in progs:
+            if r3.random() < opts["p_multi_file"]:
+                p.inj_files = r3.choice([2, 2, 3])
     if opts.get("p_wire_import_forms"):
         # the injector files reach the marker functions through a dot import or a renamed import (own random stream:
         # the programs themselves stay what they were)
